@@ -28,6 +28,20 @@ def sh(cmd, timeout=3600, cwd=None, env=None):
     return p.returncode, out
 
 
+# what each suite must at least bring about, per generated case (substring of a histogram key, minimum
+# occurrences per case); far below what the unchanged tree gives, so that only a collapse trips it
+SUITE_EXPECTS = {
+    "wallet": [("status=200", 0.25), ("included=true", 0.15)],
+    "views": [("amount/fail=false/status=200", 0.5), ("progress/", 0.5)],
+    "chain": [("validate/aligned=produce", 1.0), ("=ok", 1.0)],
+    "accept": [("accept/extension/", 0.2), ("accept/resync/", 0.2)],
+    "forks": [("=replaced", 0.2)],
+    "catchup": [("catchup/", 0.5)],
+    "sweep": [("U=replaced", 0.1), ("V=produced", 0.1)],
+    "place": [("place/", 0.5)],
+}
+
+
 def known_findings():
     fnd, fixed = [], []
     path = os.path.join(ROOT, "KNOWN_FINDINGS.txt")
@@ -138,6 +152,7 @@ def main():
 
     # ---- 3/4. harness + model ------------------------------------------------------------------
     hist, samples, total_cases, total_ops, distinct, mismatches, oracle_miss = {}, [], 0, 0, 0, [], []
+    per_suite = {}
     suites_run = []
     harness_ok = os.path.exists("bin/rvharness") and os.path.exists("bin/modelrun") and rc != 4
     if not harness_ok and rc == 4:
@@ -210,6 +225,11 @@ def main():
                 distinct += d["distinct_nontrivial"]
                 for h in d["histogram"]:
                     hist[h["k"]] = hist.get(h["k"], 0) + h["n"]
+                if not s.get("corpus"):
+                    ps = per_suite.setdefault(s["suite"], {"cases": 0, "hist": {}})
+                    ps["cases"] += d["cases"]
+                    for h in d["histogram"]:
+                        ps["hist"][h["k"]] = ps["hist"].get(h["k"], 0) + h["n"]
                 if len(samples) < 3:
                     samples += d["samples"][:1]
             # 5. monitor hits for this property
@@ -223,6 +243,22 @@ def main():
                         violations.append((key, None, True, "case %s of %s: %s" % (parts[1], name, what), (name, parts[1])))
     if oracle_miss:
         notes.append("oracle table misses (harness gap, not a verdict): %d" % len(oracle_miss))
+
+    # a suite whose generated situations collapse (its set-up no longer goes through on this tree)
+    # shows nothing: the property is then no longer shown to hold on that suite
+    for sname, ps in sorted(per_suite.items()):
+        for (sub, per_case) in SUITE_EXPECTS.get(sname, []):
+            got = sum(n for k, n in ps["hist"].items() if sub in k)
+            need = per_case * ps["cases"]
+            if ps["cases"] >= 16 and got < need:
+                path = replay_file("coverage_%s" % sname,
+                                   "Suite %s: the situations it exists to generate did not come about on this tree.\n"
+                                   "histogram keys containing %r: %d occurrences in %d cases (at least %.1f expected).\n"
+                                   "The suite's set-up uses the node itself (blocks are produced, transactions admitted and confirmed by the code under test);\n"
+                                   "when that fails the comparison has nothing to compare.\n\nhistogram:\n%s\n" %
+                                   (sname, sub, got, ps["cases"], need, "\n".join("%6d %s" % (n, k) for k, n in sorted(ps["hist"].items()))))
+                violations.append(("coverage-collapse:" + sname, path, False,
+                                   "suite %s generated %d occurrences of %r in %d cases (at least %.0f expected): its set-up no longer goes through" % (sname, got, sub, ps["cases"], need)))
 
     # correspondence mismatches that concern this property's model functions
     relevant_kinds = cfg.get("mismatch_kinds")
